@@ -185,7 +185,17 @@ impl Float {
         }
 
         let orig_sem = self.get_semantics();
-        let sem = orig_sem.grow_log(10).increase_exponent(10);
+
+        // The range reduction divides the argument by two 'exp + 3' times at
+        // most, and every squaring that undoes a halving doubles the relative
+        // error, so keep one more bit for each of them. Arguments beyond
+        // 2^(exponent bits) overflow at any precision.
+        let halvings = if self.get_exp() < 0 {
+            0
+        } else {
+            (self.get_exp() as usize + 3).min(orig_sem.get_exponent_len() + 3)
+        };
+        let sem = orig_sem.grow_log(10 + halvings).increase_exponent(10);
 
         // Handle the negative values.
         if self.is_negative() {
